@@ -109,7 +109,7 @@ class SMTWTPEnv(RL4COEnvBase):
         current_job = torch.zeros((*batch_size, 1), dtype=torch.int64, device=device)
         current_time = torch.zeros((*batch_size, 1), dtype=torch.int64, device=device)
         available = torch.ones(
-            (*batch_size, self.generator.num_job + 1), dtype=torch.bool, device=device
+            (*batch_size, init_job_due_time.shape[-1]), dtype=torch.bool, device=device
         )
         available[:, 0] = 0  # mask the starting dummy node
 
